@@ -12,6 +12,7 @@ package props
 // and at the end).
 
 import (
+	"bytes"
 	"encoding/hex"
 	"fmt"
 	"math"
@@ -317,6 +318,9 @@ func (h *hist) actAuthorize(t *rapid.T) {
 			signers = append(signers, k)
 		}
 		signers = append(signers, h.keyOfAuth(a))
+		if s.M.Registered {
+			signers = append(signers, ref.MirrorKey(s.gca)) // private key N-d: same 32-byte public key string, another key
+		}
 		k := signers[rapid.IntRange(0, len(signers)-1).Draw(t, "signer")]
 		a.Sig = ref.Sign(k, a.SigningBytes())
 		s.authorize(a, "foreign-signature")
@@ -763,6 +767,28 @@ func (h *hist) actAuthorityProbe(t *rapid.T) {
 			s.fail("migration order signed by the GCA was not honoured (status %d)", st)
 		}
 		ev.Label("C07:probe-migration")
+		if stored, ok := after.Migrations[[32]byte(em.Equipment)]; ok {
+			// an order that borrows the SIGNATURE of the stored, genuine order for
+			// other content (another new GCA, id and servers): only the GCA's
+			// signature over exactly that content may be honoured
+			evil := keyFor("attacker-gca")
+			forged := ref.Migration{Equipment: em.Equipment, NewGCA: evil.Pub, NewShortID: 99}
+			fs := ref.AuthServer{PublicKey: keyFor("attacker-peer").Pub, Location: "127.0.0.1", HttpPort: 2, TcpPort: 2, UdpPort: 2}
+			fs.Sig = ref.Sign(evil, fs.SigningBytes())
+			forged.NewServers = []ref.AuthServer{fs}
+			forged.Sig = [64]byte(stored.Signature)
+			s.logf("POST equipment-migrate with the stored order's signature over other content")
+			st, _, err := s.S.PostJSON("/api/v1/equipment-migrate", world.ToGlowMigration(forged))
+			s.checkPanics("POST equipment-migrate (borrowed signature)")
+			if err != nil {
+				s.fail("request failed: %v", err)
+			}
+			now := s.S.VerifSnapshot().Migrations[[32]byte(em.Equipment)]
+			if st == 200 || !bytes.Equal(now.Serialize(), stored.Serialize()) {
+				s.fail("a migration order that reuses the stored order's signature for other content was honoured (status %d)", st)
+			}
+			ev.Label("C07:probe-migration-borrowed-signature")
+		}
 	}
 	s.compare(s.S.VerifSnapshot(), "authority probe")
 }
